@@ -499,7 +499,7 @@ static mut IT_AGES: [u64; 2] = [0; 2];
 static mut REMOVED: [u8; 4] = [0; 4];
 static mut REMOVED_N: usize = 0;
 
-fn stub_iter_next<'a>(_it: &mut crate::common::RoutingTableIterator<'a>) -> Option<Node> {
+fn stub_iter_next<'a: 'a>(_it: &mut crate::common::RoutingTableIterator<'a>) -> Option<Node> {
     unsafe {
         let p = IT_POS;
         IT_POS += 1;
